@@ -491,6 +491,9 @@ def run(ctx):
     ctx.notes["further_failing_scripts_not_listed"] = {"/".join(map(str, k)): n - 1 for k, n in reported.items() if n > 1}
     ctx.sample({"campaign": G[0][0], "script_head": G[0][2][:300]})
     ctx.sample({"scripts_per_kind": kinds, "per_container": per_cont})
+    from .. import lateset
+    if lateset.run_c12(ctx):      # the `have_written`-guarded setters after audio written through EVERY write entry point (typed x 8, raw)
+        found_input = True
     if failed and not found_input:
         ctx.violation("lean-stage", "theorem(s) no longer check: %s\nno failing input found by the metadata campaigns\n%s" % (", ".join(failed), ctx.notes.get("lean_log_tail", "")), no_input=True)
     ctx.coverage["exhaustive"] = False
